@@ -41,6 +41,7 @@ def _case(draw, tier):
     t = sorted([thr(), thr()], key=lambda x: x[0])
     c["thr1"], c["thr2"] = t
     c["compiled"] = draw(st.booleans())
+    c["alias_equal"] = draw(st.booleans())
     return c
 
 
@@ -141,6 +142,13 @@ def run_case(case, ctx):
         ctx.check(isinstance(out, list) and len(out) == 2 and len(out[0]) == N
                   and len(out[1]) == N, "result_shape", lambda: "got %r" % (out,))
         kept, removed = out
+        off = ctx.call("filter_reconcile_off", pyspike.filter_by_spike_sync, sts, thr[0],
+                       return_removed_spikes=True, Reconcile=False, **kw)
+        ctx.check([[list(t.spikes) for t in part] for part in off] ==
+                  [[list(t.spikes) for t in part] for part in out], "reconcile_off_differs",
+                  lambda: "valid input: Reconcile=False gives %r, default %r"
+                  % ([[list(t.spikes) for t in part] for part in off],
+                     [[list(t.spikes) for t in part] for part in out]))
         only = ctx.call("filter_kept_only", pyspike.filter_by_spike_sync, sts, thr[0], **kw)
         ctx.check(len(only) == N and all(list(only[n].spikes) == list(kept[n].spikes)
                                          for n in range(N)), "kept_only_form_differs",
